@@ -2404,7 +2404,14 @@ func (p *Parser) parseFill() (FillOption, interface{}, error) {
 	} else if len(fill.Args) != 1 {
 		return NullFill, nil, errors.New("fill requires an argument, e.g.: 0, null, none, previous, linear")
 	}
-	switch fill.Args[0].String() {
+	// Only a variable reference can spell one of the fill options. Do not print
+	// any other argument to find out: printing a deeply nested expression takes
+	// time quadratic in its depth.
+	var option string
+	if ref, ok := fill.Args[0].(*VarRef); ok {
+		option = ref.String()
+	}
+	switch option {
 	case "null":
 		return NullFill, nil, nil
 	case "none":
